@@ -291,9 +291,10 @@ func verifyImage(res *caseResult, caseIdx int, img imgfs.Image, shards int, name
 	}
 	// fresh names must not get ids that recovered dictionaries or recovered index entries use
 	fr := rand.New(rand.NewSource(fseed))
+	seenSeries := map[string]bool{} // fresh series already created on this image (the generator repeats metrics/tag sets)
 	for _, row := range genRows(fr, 900+k, 4) {
 		s := fr.Intn(shards)
-		freshRow(o, d, s, row, k, img.Label, why)
+		freshRow(o, d, s, row, k, img.Label, why, seenSeries)
 	}
 	o.count("images_recovered_and_checked", 1)
 	if inside {
@@ -344,7 +345,7 @@ func lookup(d *dbset, n ledgerName) (uint32, bool, error) {
 
 // freshRow creates the names of a brand-new row on the recovered databases and checks that none of the ids it
 // receives is already used by recovered dictionaries (observation map) or recovered index entries.
-func freshRow(o *observations, d *dbset, s int, row rowSpec, k int, label string, why func(kind string, id uint32) string) {
+func freshRow(o *observations, d *dbset, s int, row rowSpec, k int, label string, why func(kind string, id uint32) string, seenSeries map[string]bool) {
 	row.Metric = "fresh-" + row.Metric
 	for i := range row.Tags {
 		row.Tags[i][1] = "fresh-" + row.Tags[i][1]
@@ -356,10 +357,12 @@ func freshRow(o *observations, d *dbset, s int, row rowSpec, k int, label string
 		return
 	}
 	o.observe(97, "metric", row.NS, row.Metric, uint32(mid), o.tick(), o.tick())
+	metricCollided := false
 	if existed != nil { // brand-new metric name: no index entry may know its id
 		for si := range d.idx {
 			ids, err := d.idx[si].GetSeriesIDsForMetric(mid)
 			if err == nil && ids != nil && !ids.IsEmpty() {
+				metricCollided = true
 				o.fail("C09/fresh-id-already-used-by-index-entries/"+why("metric", uint32(mid))+"/metric", "image %d (after %q): new metric %q got id %d, but shard %d's recovered index already lists series %v for that id",
 					k, label, row.Metric, mid, si, ids.ToArray())
 			}
@@ -411,7 +414,12 @@ func freshRow(o *observations, d *dbset, s int, row rowSpec, k int, label string
 		o.fail("C09/gen-fails", "image %d: GenSeriesID: %v", k, err)
 		return
 	}
-	if before != nil && before.Contains(sid) {
+	// (when the fresh metric id itself collided with recovered index entries – reported above – its "new" series
+	// resolve to the old metric's series: a consequence, not a second defect)
+	seriesKey := fmt.Sprintf("%d/%d/%s", s, mid, row.tagString())
+	brandNew := !seenSeries[seriesKey]
+	seenSeries[seriesKey] = true
+	if brandNew && !metricCollided && before != nil && before.Contains(sid) {
 		o.fail("C09/fresh-id-already-used-by-index-entries/"+why("series", uint32(sid))+"/series", "image %d (after %q): new series %q of metric %d got id %d which the recovered index already lists", k, label, row.tagString(), mid, sid)
 	}
 	o.observe(97, "series", fmt.Sprintf("shard=%d,metric=%d", s, mid), row.tagString(), sid, o.tick(), o.tick())
